@@ -2,5 +2,6 @@ SPECIFICATION Spec
 CONSTANTS
   Fuel = 24
   Repaired = TRUE
+  Light = FALSE
 INVARIANT Done
 CHECK_DEADLOCK FALSE
